@@ -237,6 +237,13 @@ def compare_link(impl, model):
 def gen_comp(rng):
     if rng.random() < 0.2:
         return sc.gen_mixed_delay_chain(rng)
+    if rng.random() < 0.15:
+        # a push-based time adapter with a fixed delay *downstream* of it: the consumer's shifted request goes to the adapter's
+        # buffer, and the shifted time is what the driver has to wait for
+        d = rng.randint(1, 6)
+        chain = [[rng.choice(["lin", "prev", "next"])]] + ([["scale"]] if rng.random() < 0.3 else []) + [["dfix", d]]
+        return {"comps": [{"kind": "time", "start": 0, "steps": [1]}, {"kind": "time", "start": 0, "steps": [rng.choice([d + 1, d + 3, 7, 10])]}],
+                "links": [{"src": 0, "out": 0, "dst": 1, "ads": chain}], "order": rng.sample([0, 1], 2), "end": rng.randint(15, 40)}
     chain = []
     for _ in range(rng.randint(1, 3)):
         k = rng.choice(["dfix", "dfix", "dpull", "scale"])
@@ -271,6 +278,9 @@ def oracle_comp(spec, impl):
             src_time = t
             continue
         rs = [tt for tag, tt in reqs if tag == ("out", 0)]
+        if len(spec["comps"]) == 2 and any(a[0] in sc.CACHE for a in spec["links"][0]["ads"]):
+            eff = sc.link_requirements(spec, 0, reqs)     # the request that reaches the push-based adapter's buffer
+            rs = [eff] if isinstance(eff, (int, float)) else []
         if rs:
             r = rs[-1]
             if src_time < r:
